@@ -129,6 +129,19 @@ def cmpArr (name : String) (model impl : Array Float) (tol scale : Float) : Cmp 
     let d := maxDiff model impl
     if d ≤ tol then .ok else .fail s!"{name}:maxdiff={fmtF d}>tol={fmtF tol}"
 
+/-- element-wise relative comparison (exact-arithmetic sub-stream): `|a−b| ≤ rel·max(|a|,|b|) + abs` -/
+def cmpRel (name : String) (a b : Array Float) (rel abs : Float) : Cmp := Id.run do
+  if a.size != b.size then return .fail s!"{name}:length"
+  for i in [0:a.size] do
+    let x := a[i]!; let y := b[i]!
+    if x.isNaN || y.isNaN then
+      if !(x.isNaN && y.isNaN) then return .fail s!"{name}:nan-at-{i}"
+    else if x != y then
+      let d := (x - y).abs
+      if !(d ≤ rel * (max x.abs y.abs) + abs) then
+        return .fail s!"{name}:entry-{i}:model={fmtF x}:impl={fmtF y}"
+  return .ok
+
 def cmpBits (name : String) (a b : Array Float) : Cmp :=
   if bitsEq a b then .ok else .fail s!"{name}:bits-differ(maxdiff={fmtF (maxDiff a b)})"
 
@@ -218,6 +231,7 @@ def stateCore (focus : String) (c : Case) : Acc × String := Id.run do
     | none => []
   let eps : Float := ((PB.run Float.abs pcalls).eps).getD (machEps width)
   let w : Option (Vector Float n) := wIn.map (vecOfArray n)
+  let exact := attrStr c.header "origin" == "diag"
   let hugeN := 1000000000
   let parseIdx (v : String) : Nat := match v.toNat? with | some k => min k hugeN | none => hugeN
   let faultMode := (attr c.header "failfrom").isSome
@@ -308,13 +322,14 @@ def stateCore (focus : String) (c : Case) : Acc × String := Id.run do
       let tolC := (dsvd + cw * u) * pert
       let tolR := (dsvd + cw * u) * (cond.smax * pert + ymax)
       if rmax > 1e-3 * ymax && m ≥ 2 then acc := { acc with nontrivial := true }
-      if cond.ambiguous then
+      if cond.ambiguous && !exact then
         acc := { acc with skips := acc.skips + 1 }
       else
         -- --- coefficients (C01)
         if wants focus "coef" then
           if let some (some ci) := o.coef then
-            acc := acc.addCorr (cmpArr s!"step{si}:coef" Cm.a ci.a tolC (max cmax 1e-300))
+            if exact then acc := acc.addCorr (cmpRel s!"step{si}:coef" Cm.a ci.a (64.0 * u) (64.0 * u * ymax / cond.smax))
+            else acc := acc.addCorr (cmpArr s!"step{si}:coef" Cm.a ci.a tolC (max cmax 1e-300))
             -- monitor: truncated normal equations A_εᵀ (Y_w − A_ε C) = 0 on the implementation's C,
             -- minimum norm (C ⟂ dropped right singular vectors), finiteness
             let Uf := FMat.ofMat cache.svd.U; let Vt := FMat.ofMat cache.svd.Vt
@@ -322,7 +337,8 @@ def stateCore (focus : String) (c : Case) : Acc × String := Id.run do
             let keepS := FMat.ofFn sig.size sig.size fun i j => if i == j && sig[i]! > eps then sig[i]! else 0.0
             let Aeps := (Uf.mul keepS).mul Vt
             let ne := Aeps.transpose.mul (Ywf.sub (Aeps.mul ci))
-            let tolNE := (dsvd + cw * u) * cond.smax * (cond.smax * cmax * (m.toFloat + 1.0) + ymax) * kap
+            let tolNE := if exact then 256.0 * u * cond.smax * (cond.smax * cmax * (m.toFloat + 1.0) + ymax)
+              else (dsvd + cw * u) * cond.smax * (cond.smax * cmax * (m.toFloat + 1.0) + ymax) * kap
             if tolNE ≤ 5e-2 * cond.smax * (ymax + cond.smax * cmax) then
               if !(ne.maxAbs ≤ tolNE) then
                 acc := { acc with mon := acc.mon.push s!"step{si}:normal-eq={fmtF ne.maxAbs}>tol={fmtF tolNE}" }
@@ -337,7 +353,8 @@ def stateCore (focus : String) (c : Case) : Acc × String := Id.run do
         -- --- residuals (C02)
         if wants focus "res" then
           if let some (some ri) := o.res then
-            acc := acc.addCorr (cmpArr s!"step{si}:res" cache.residuals.vec.toArray ri tolR (max ymax 1e-300))
+            if exact then acc := acc.addCorr (cmpRel s!"step{si}:res" cache.residuals.vec.toArray ri (64.0 * u) (64.0 * u * ymax))
+            else acc := acc.addCorr (cmpArr s!"step{si}:res" cache.residuals.vec.toArray ri tolR (max ymax 1e-300))
             -- monitor: residuals = vec(Y_w − (W Φ) C) for the implementation's OWN coefficients and
             -- the α it reports (tight: same formula, only summation order may differ)
             if let some (some ci) := o.coef then
@@ -357,19 +374,23 @@ def stateCore (focus : String) (c : Case) : Acc × String := Id.run do
                 | some f => max a (FMat.ofMat (wmul w (f.toMat n m))).maxAbs | none => a) 0.0
               let jscale := max (dmax * cmax * m.toFloat) 1e-300
               let tolJ := (dsvd + cw * u) * kap * jscale + dmax * m.toFloat * tolC
-              acc := acc.addCorr (cmpArr s!"step{si}:jac" Jf.a Ji.a tolJ jscale)
+              if exact then acc := acc.addCorr (cmpRel s!"step{si}:jac" Jf.a Ji.a (64.0 * u) (64.0 * u * jscale))
+              else acc := acc.addCorr (cmpArr s!"step{si}:jac" Jf.a Ji.a tolJ jscale)
               -- monitors on the implementation's J: every block is orthogonal to range(WΦ);
               -- J_k = −(I − P) D_k C with the driver's own projector and the implementation's C
               if let some (some ci) := o.coef then
                 let Uf := FMat.ofMat cache.svd.U
-                let Pj := Uf.mul Uf.transpose
-                let IP := (FMat.identity n).sub Pj
+                let Uft := Uf.transpose
                 for k in [0:p] do
                   if let some (some dk) := step.tables.d[k]? then
                     let Dk := FMat.ofMat (wmul w (dk.toMat n m))
-                    let expect := (IP.mul (Dk.mul ci))
+                    let X := Dk.mul ci
+                    -- (1 − U Uᵀ) X without forming the N×N projector
+                    let expect := X.sub (Uf.mul (Uft.mul X))
                     let block := FMat.ofFn n s fun i cc => Ji.get (i + cc * n) k
                     let sum := FMat.ofFn n s fun i cc => block.get i cc + expect.get i cc
+                    -- exact sub-stream: the decomposition of a diagonal matrix is exact on both sides
+                    let tolJ := if exact then 256.0 * u * jscale else tolJ
                     if tolJ ≤ 5e-2 * jscale then
                       if !(sum.maxAbs ≤ tolJ) then
                         acc := { acc with mon := acc.mon.push s!"step{si}:J{k}+(I-P)DkC={fmtF sum.maxAbs}>tol={fmtF tolJ}" }
